@@ -1029,6 +1029,22 @@ func (vc *VC) modOfBlocks(fn *ssa.Function, blocks map[*ssa.BasicBlock]bool) (ma
 		for _, ins := range b.Instrs {
 			switch t := ins.(type) {
 			case *ssa.Store:
+				// stores into local variables that never escape do not touch the heaps
+				root := t.Addr
+				for {
+					switch u := root.(type) {
+					case *ssa.FieldAddr:
+						root = u.X
+						continue
+					case *ssa.IndexAddr:
+						root = u.X
+						continue
+					}
+					break
+				}
+				if a, ok := root.(*ssa.Alloc); ok && (isLocalAlloc(a) || a.Comment == "makeslice") {
+					continue
+				}
 				vc.staticStoreHeaps(t.Addr, out)
 			case *ssa.MapUpdate:
 				if mt, ok := vc.rt(t.Map.Type()).Underlying().(*types.Map); ok {
